@@ -99,7 +99,23 @@ def _rw_name_iter_mut(text):
     return re.subn(r'\bfor vec in vectors\.iter_mut\(\) \{', 'for vec in it: vectors.iter_mut() {', text)
 
 
+def _rw_values_enumerate(text):
+    # RW15: `for (C, V) in X.values.enumerate() { BODY }` ->
+    #       `let mut C: usize = 0; let mut vals__ = X.values; while let Some(V) = vals__.next() { BODY C += 1; }`
+    # (std's Enumerate over an ExactSizeIterator written out: Verus has no Enumerate)
+    m = re.search(r'for \((\w+), (\w+)\) in (\w+)\.values\.enumerate\(\) \{', text)
+    if not m:
+        return text, 0
+    src = Src(text)
+    ob = m.end() - 1
+    cb = src.match_close(ob)
+    head = 'let mut %s: usize = 0; let mut vals__ = %s.values; while let Some(%s) = vals__.next() {' % (m.group(1), m.group(3), m.group(2))
+    new = text[:m.start()] + head + text[ob + 1:cb] + '    %s += 1;\n                ' % m.group(1) + text[cb:]
+    return new, 1
+
+
 REWRITES = {
+    'RW15': ('for (c, v) in chunk.values.enumerate() -> explicit counter + while let Some(v) = vals__.next() (assumption T6 for Enumerate)', _rw_values_enumerate),
     'RW14': ('for vec in vectors.iter_mut() -> for vec in it: vectors.iter_mut() (names the ghost iterator; same loop)', _rw_name_iter_mut),
     'RW13': ('fn f(_: &T) -> fn f(_x: &T) (unnamed parameter named; unused either way)', _rw_name_param),
     'RW12': ('for x in handles -> for x in it: handles (Verus syntax naming the ghost iterator; same loop)', _rw_name_iter),
@@ -311,7 +327,7 @@ def build_fn(block, repo, em):
     sha = hashlib.sha256(item.encode()).hexdigest()
     line0 = src.line_of(s)
     line1 = src.line_of(e - 1)
-    fn_name = block.name or '::'.join(seg.split(' ', 1)[1] if not seg.startswith('impl') else seg[5:] for seg in block.path)
+    fn_name = block.name or '::'.join(seg.split(' ', 1)[1] if not seg.startswith('impl') else seg[4:].strip() for seg in block.path)
 
     # ---- drops
     item, ndoc = strip_docs_and_inline(item)
